@@ -24,14 +24,34 @@ def classify(det, findings):
     return None
 
 
-def run_histories(rep, sess, r, vocab, n_hist, findings, tag):
+class _Fixed:
+    """a fixed history presented through the generator interface"""
+    def __init__(self, cmds, shape):
+        self.cmds, self.i, self.last_shape = cmds, 0, shape
+
+    def setup(self):
+        return []
+
+    def command(self):
+        c = self.cmds[self.i]
+        self.i += 1
+        return c
+
+
+def run_histories(rep, sess, r, vocab, n_hist, findings, tag, corpus=()):
     oracle_fail, disagree = [], []
+    plan = [(_Fixed(c, "corpus:" + shape), len(c)) for shape, c in corpus]
+    rep.extra["corpus_histories"] = len(plan)
     for h in range(n_hist):
+        plan.append((None, None))
+    for h, (g, n) in enumerate(plan):
         sess.fresh()
-        g = ksgen.Gen(r.fork("%s%d" % (tag, h)), vocab)
+        if g is None:
+            h -= len(corpus)
+            g = ksgen.Gen(r.fork("%s%d" % (tag, h)), vocab)
+            n = r.range(20, 60)
         for a in g.setup():
             sess.do(a)
-        n = r.range(20, 60)
         for i in range(n):
             args = g.command()
             impl, code = sess.do(args)
@@ -49,7 +69,7 @@ def run_histories(rep, sess, r, vocab, n_hist, findings, tag):
                 disagree.append(det)
             if impl != code or impl.startswith(("closed", "server")):
                 break       # states may have diverged: start a new history
-            if kind == "err" and r.chance(1, 3):
+            if kind == "err" and (r.chance(1, 3) or isinstance(g, _Fixed)):
                 # failure atomicity observed directly: a refused command leaves the dataset as the model has it
                 di, dm = sess.dump_impl(), sess.dump_model()
                 rep.evaluations += 1
@@ -68,7 +88,7 @@ def run_histories(rep, sess, r, vocab, n_hist, findings, tag):
                        "history": [[hx(x) for x in hh[0]] for hh in sess.history]}
                 oracle_fail.append(det)
                 disagree.append(det)
-        if h < 2:
+        if 0 <= h < 2 and not isinstance(g, _Fixed):
             rep.sample({"history": [" ".join(repr(a.decode("latin-1")) for a in hh[0]) + " -> " + hh[1] for hh in sess.history[:25]]})
     return oracle_fail, disagree
 
@@ -146,7 +166,7 @@ def main(tier, seed):
     r = Rng(seed)
     try:
         n = 300 if tier == "quick" else 6000
-        of, dis = run_histories(rep, sess, r, ksgen.STRING_VOCAB, n, findings, "c01")
+        of, dis = run_histories(rep, sess, r, ksgen.STRING_VOCAB, n, findings, "c01", corpus=ksgen.string_corpus())
         verdict(rep, ok, log, errs, of, dis, findings, sess, "C01")
     finally:
         sess.close()
